@@ -321,7 +321,7 @@ class Engine:
 
     def fid(self, name, cls=None):
         """Field identity: the plain name, or name@DeclaringClass when classes declare the name with different types."""
-        if '@' in name:
+        if '|' in name:
             return name
         if self.cur is not None and name in self.cur.fields:
             return name
@@ -333,19 +333,19 @@ class Engine:
         if cls is not None:
             for c in self.class_chain(cls):
                 if c in var:
-                    return '%s@%s' % (name, c)
+                    return '%s|%s' % (name, c)
         raise Unsupported('field %r is declared with several types; receiver class %r does not determine which' % (name, cls))
 
     def fids(self, name):
-        if '@' in name:
+        if '|' in name:
             return [name]
         var = self.prop.field_variants.get(name)
         if not var or len({str(t) for t in var.values()}) == 1:
             return [name]
-        return ['%s@%s' % (name, c) for c in var]
+        return ['%s|%s' % (name, c) for c in var]
 
     def field_type(self, fid):
-        name, _, decl = fid.partition('@')
+        name, _, decl = fid.partition('|')
         if self.cur is not None and name in self.cur.fields and not decl:
             return self.ptype(self.cur.fields[name])
         var = self.prop.field_variants.get(name)
